@@ -6,6 +6,7 @@ import (
 	"bytes"
 	"context"
 	"encoding/json"
+	"errors"
 	"fmt"
 	"os"
 	"regexp"
@@ -25,6 +26,7 @@ import (
 //
 //	{"op":"req","caller":i,"image":"a"}            caller i calls Pull("a") in a new goroutine
 //	{"op":"done","image":"a","result":"ok"|"err"}  the oldest running scripted pull of "a" returns
+//	{"op":"cancel","caller":i}                     the context of caller i's waiting Pull is cancelled
 //	{"op":"overlap","image":"a","result":..,"caller":i}
 //	    as done, but the broadcast of handleResponse is stalled on an extra unbuffered receiver
 //	    (put at the head of the entry through the export shim); while it is stalled caller i calls
@@ -35,6 +37,12 @@ import (
 // inFlightLock) has changed as the step requires and every goroutine created by the
 // scenario is parked in a channel receive (callers inside Pull, scripted pulls at
 // their gate). Nothing in the harness depends on the model: it reports what it saw.
+//
+// Watchdog: the harness never takes inFlightLock blockingly (TryLock accessor only). When
+// every goroutine of the scenario is blocked (channel send/receive, mutex) but not all in a
+// channel receive, nothing can move any more: the schedule is aborted and reported as
+// "stuck"; if in addition inFlightLock cannot be taken, as "blocked" (a broadcast blocked
+// while holding the lock: nobody registered behind it is answered, no later Pull can start).
 type rmStep struct {
 	Op     string `json:"op"`
 	Caller int    `json:"caller"`
@@ -72,6 +80,9 @@ type rmObs struct {
 	Alias   [][2]int    `json:"alias"`   // (request step + 1, request step + 1); 0 = the pull function's original
 	Flags   []string    `json:"flags"`   // linearisation problems: timeout@k, nopull@k, notregistered@k, entryleft@k, nostall@k
 	Overlap []string    `json:"overlap"` // per overlap step: what the overlapping Pull did while the broadcast was stalled
+	Stuck   int         `json:"stuck"`   // -1, or the step after which nothing could move any more (schedule aborted there)
+	Blocked bool        `json:"blocked"` // stuck and inFlightLock is held: a broadcast is blocked holding the lock
+	Probe   string      `json:"probe,omitempty"`
 }
 
 type rmPull struct {
@@ -82,6 +93,7 @@ type rmPull struct {
 }
 
 type rmReq struct {
+	cancel       context.CancelFunc
 	step, caller int
 	image        string
 	answered     bool
@@ -89,15 +101,17 @@ type rmReq struct {
 }
 
 type rmHarness struct {
-	mu      sync.Mutex
-	mutMu   sync.Mutex
-	pullSeq int
-	running map[string][]*rmPull
-	all     []*rmPull
-	cur     []rmEv
-	reqs    []*rmReq
-	base    map[int]bool
-	flags   []string
+	mu       sync.Mutex
+	mutMu    sync.Mutex
+	pullSeq  int
+	running  map[string][]*rmPull
+	all      []*rmPull
+	cur      []rmEv
+	reqs     []*rmReq
+	base     map[int]bool
+	flags    []string
+	stuck    bool // structural: every goroutine blocked, not all at rest (two consecutive snapshots)
+	timedOut bool // a wait ran into rmStepTimeout: the schedule is abandoned, no verdict
 }
 
 var goroutineHdr = regexp.MustCompile(`(?m)^goroutine (\d+) \[([^\]]*)\]:$`)
@@ -120,8 +134,45 @@ func goroutineStates() map[int]string {
 	return out
 }
 
-// quiescent: every goroutine born during this scenario is parked in a channel receive.
-func (h *rmHarness) quiescent() bool { return h.parked("chan receive") }
+// quiescent: every goroutine born during this scenario is parked in a channel receive (or select).
+func (h *rmHarness) quiescent() bool { return h.parked(restStates...) }
+
+// snapshot evaluates, on ONE goroutine dump, whether every goroutine of the scenario is parked in a
+// channel receive (quiescent) and whether every one is blocked at all (send, receive or mutex).
+func (h *rmHarness) snapshot() (quiescent, allBlocked bool) {
+	quiescent, allBlocked = true, true
+	for id, st := range goroutineStates() {
+		if h.base[id] {
+			continue
+		}
+		rest := false
+		for _, a := range restStates {
+			rest = rest || strings.HasPrefix(st, a)
+		}
+		if !rest {
+			quiescent = false
+		}
+		ok := false
+		for _, a := range blockedStates {
+			ok = ok || strings.HasPrefix(st, a)
+		}
+		if !ok {
+			allBlocked = false
+		}
+	}
+	return quiescent, allBlocked
+}
+
+// confirmStuck: three more snapshots, spaced out, all showing every goroutine blocked and not all at rest.
+func (h *rmHarness) confirmStuck() bool {
+	for j := 0; j < 3; j++ {
+		time.Sleep(200 * time.Microsecond)
+		if q, b := h.snapshot(); q || !b {
+			return false
+		}
+	}
+	return true
+}
 
 // parked: every goroutine born during this scenario is blocked in one of the given states.
 func (h *rmHarness) parked(allowed ...string) bool {
@@ -147,14 +198,11 @@ func (h *rmHarness) waitParked(allowed ...string) bool {
 		if h.parked(allowed...) {
 			return true
 		}
-		if time.Now().After(deadline) {
+		if i > rmMinPolls && time.Now().After(deadline) {
+			h.flags = append(h.flags, "states:"+h.describe())
 			return false
 		}
-		if i < 20 {
-			runtime.Gosched()
-		} else {
-			time.Sleep(20 * time.Microsecond)
-		}
+		pause(i)
 	}
 }
 
@@ -174,25 +222,70 @@ func (h *rmHarness) countState(prefixes ...string) int {
 	return n
 }
 
-const rmStepTimeout = 2 * time.Second
+// Only a fallback: a schedule that is really stuck is recognised structurally (snapshot), not by time.
+// A wait only times out after the wall-clock limit AND a minimum number of polls made by this process
+// (a process frozen by the OS / CPU throttling makes no polls, so it cannot time out by being frozen).
+const (
+	rmStepTimeout = 20 * time.Second
+	rmMinPolls    = 5000
+)
+
+// describe lists the states of the scenario's goroutines (diagnostics for a timeout).
+func (h *rmHarness) describe() string {
+	var l []string
+	for id, st := range goroutineStates() {
+		if !h.base[id] {
+			l = append(l, st)
+		}
+	}
+	sort.Strings(l)
+	return strings.Join(l, "|")
+}
+
+// A caller waiting in Pull is parked in "chan receive" (current code) or in "select" (a Pull that
+// also watches its context); a scripted pull at its gate in "chan receive".
+var (
+	restStates = []string{"chan receive", "select"}
+	// NOT "semacquire": that is also the state of a goroutine that wants to start a GC cycle and waits
+	// for the world semaphore, which runtime.Stack(all) of this very harness holds while it dumps.
+	blockedStates = []string{"chan receive", "select", "chan send", "sync.Mutex.Lock"}
+)
+
+// pause backs off between polls so that goroutines waiting for the world semaphore (GC start) are
+// not starved by the stop-the-world goroutine dumps of the polling loop.
+func pause(i int) {
+	switch {
+	case i < 10:
+		runtime.Gosched()
+	case i < 200:
+		time.Sleep(20 * time.Microsecond)
+	default:
+		time.Sleep(500 * time.Microsecond)
+	}
+}
 
 // waitFor polls until cond() holds in a quiescent state. If the system is quiescent
 // but cond() is false nothing can change any more: report that without waiting.
 func (h *rmHarness) waitFor(cond func() bool) (ok, timedOut bool) {
 	deadline := time.Now().Add(rmStepTimeout)
 	for i := 0; ; i++ {
-		if h.quiescent() {
+		q, allBlocked := h.snapshot()
+		if q {
 			// cond is evaluated after quiescence was seen: it is stable.
 			return cond(), false
 		}
-		if time.Now().After(deadline) {
+		if allBlocked && h.confirmStuck() {
+			// everybody is blocked, but not everybody in a channel receive: a send nobody
+			// receives, or a mutex nobody releases. Nothing will change.
+			h.stuck = true
 			return false, true
 		}
-		if i < 20 {
-			runtime.Gosched()
-		} else {
-			time.Sleep(20 * time.Microsecond)
+		if i > rmMinPolls && time.Now().After(deadline) {
+			h.timedOut = true // inconclusive (overloaded machine, or code that spins): never a verdict by itself
+			h.flags = append(h.flags, "states:"+h.describe())
+			return false, true
 		}
+		pause(i)
 	}
 }
 
@@ -305,13 +398,46 @@ func init() {
 			}
 			return rec.orig, nil
 		})
-		obs := rmObs{Events: [][]rmEv{}, Counts: []int{}, Drain: []rmStep{}, Pending: []rmPending{}, Alias: [][2]int{}, Flags: []string{}, Overlap: []string{}}
+		obs := rmObs{Events: [][]rmEv{}, Counts: []int{}, Drain: []rmStep{}, Pending: []rmPending{}, Alias: [][2]int{}, Flags: []string{}, Overlap: []string{}, Stuck: -1}
+		// count never blocks on inFlightLock: TryLock, retried for a short while
 		count := func(image string) int {
-			n, present := rm.VerifReceivers(image)
-			if !present {
-				return 0
+			deadline := time.Now().Add(2 * time.Second)
+			for {
+				n, present, locked := rm.VerifTryReceivers(image)
+				if locked {
+					if !present {
+						return 0
+					}
+					return n
+				}
+				if time.Now().After(deadline) {
+					if _, b := h.snapshot(); b {
+						h.stuck = true // everybody is blocked and one of them holds the lock
+					} else {
+						h.timedOut = true
+					}
+					return 0
+				}
+				time.Sleep(50 * time.Microsecond)
 			}
-			return n
+		}
+		present := func(image string) bool {
+			deadline := time.Now().Add(2 * time.Second)
+			for {
+				_, p, locked := rm.VerifTryReceivers(image)
+				if locked {
+					return p
+				}
+				if time.Now().After(deadline) {
+					if _, b := h.snapshot(); b {
+						h.stuck = true
+					} else {
+						h.timedOut = true
+					}
+					return true
+				}
+				time.Sleep(50 * time.Microsecond)
+			}
 		}
 		endStep := func(image string) {
 			h.mu.Lock()
@@ -328,7 +454,11 @@ func init() {
 				return evs[i].req < evs[j].req
 			})
 			obs.Events = append(obs.Events, evs)
-			obs.Counts = append(obs.Counts, count(image))
+			if image == "" || h.stuck || h.timedOut {
+				obs.Counts = append(obs.Counts, 0)
+			} else {
+				obs.Counts = append(obs.Counts, count(image))
+			}
 		}
 		var spawnReq func(k int, st rmStep)
 		doReq := func(k int, st rmStep) {
@@ -344,12 +474,13 @@ func init() {
 			endStep(st.Image)
 		}
 		spawnReq = func(k int, st rmStep) {
-			req := &rmReq{step: k, caller: st.Caller, image: st.Image}
+			ctx, cancel := context.WithCancel(context.Background())
+			req := &rmReq{step: k, caller: st.Caller, image: st.Image, cancel: cancel}
 			h.mu.Lock()
 			h.reqs = append(h.reqs, req)
 			h.mu.Unlock()
 			go func() {
-				pkg, err := rm.Pull(context.Background(), st.Image)
+				pkg, err := rm.Pull(ctx, st.Image)
 				ev := rmEv{K: "resp", Caller: st.Caller, Image: st.Image, Pull: -1, Res: "none", req: k}
 				switch {
 				case pkg != nil:
@@ -362,6 +493,8 @@ func init() {
 					if !sc.Unsync {
 						h.mutMu.Unlock()
 					}
+				case errors.Is(err, context.Canceled):
+					ev.Res = "cancelled" // Pull gave up because its context was cancelled
 				case err != nil:
 					ev.Res = "err"
 					ev.Pull = pullNoOf(err.Error())
@@ -390,7 +523,7 @@ func init() {
 			}
 			rec.gate <- res
 			// the broadcast is over when the entry is deleted (read under inFlightLock)
-			ok, to := h.waitFor(func() bool { _, present := rm.VerifReceivers(st.Image); return !present })
+			ok, to := h.waitFor(func() bool { return !present(st.Image) })
 			if to {
 				obs.Flags = append(obs.Flags, fmt.Sprintf("timeout@%d", k))
 			} else if !ok {
@@ -432,17 +565,17 @@ func init() {
 			}
 			rec.gate <- res
 			// 1. the broadcast is stalled on the first (unbuffered) send
-			stalled := h.waitParked("chan receive", "chan send") && h.countState("chan send") == 1
+			stalled := h.waitParked("chan receive", "select", "chan send", "sync.Mutex.Lock") && h.countState("chan send") == 1
 			if !stalled {
 				obs.Flags = append(obs.Flags, fmt.Sprintf("nostall-reached@%d", k))
 			}
 			// 2. overlapping request: wait until its goroutine is parked as well
 			spawnReq(k, st)
-			if !h.waitParked("chan receive", "chan send", "sync.Mutex.Lock", "semacquire") {
+			if !h.waitParked(blockedStates...) {
 				obs.Flags = append(obs.Flags, fmt.Sprintf("timeout-overlap@%d", k))
 			}
 			what := "other"
-			if h.countState("sync.Mutex.Lock", "semacquire") > 0 {
+			if h.countState("sync.Mutex.Lock") > 0 {
 				what = "blocked-on-lock"
 			} else if _, _, locked := rm.VerifTryReceivers(st.Image); locked {
 				what = "registered-during-broadcast"
@@ -457,10 +590,55 @@ func init() {
 			}
 			endStep(st.Image)
 		}
+		doCancel := func(k int, st rmStep) {
+			h.mu.Lock()
+			var target *rmReq
+			for _, r := range h.reqs {
+				if r.caller == st.Caller && !r.answered {
+					target = r
+				}
+			}
+			h.mu.Unlock()
+			if target != nil {
+				target.cancel()
+			}
+			if _, to := h.waitFor(func() bool { return true }); to {
+				obs.Flags = append(obs.Flags, fmt.Sprintf("timeout@%d", k))
+			}
+			endStep("")
+		}
+		checkStuck := func(k int) bool {
+			if h.timedOut && !h.stuck {
+				obs.Flags = append(obs.Flags, fmt.Sprintf("aborted-timeout@%d", k))
+				return true
+			}
+			if !h.stuck {
+				return false
+			}
+			obs.Stuck = k
+			_, _, locked := rm.VerifTryReceivers("")
+			obs.Blocked = !locked
+			if obs.Blocked {
+				// what a later request experiences: it must start a fresh pull, not wait forever
+				before := h.countState("sync.Mutex.Lock")
+				go func() { _, _ = rm.Pull(context.Background(), "probe-image") }()
+				h.waitParked(blockedStates...)
+				if h.countState("sync.Mutex.Lock") > before {
+					obs.Probe = "a later Pull (of any image) blocks on inFlightLock forever: no fresh pull"
+				} else {
+					obs.Probe = "a later Pull was not seen blocked"
+				}
+			}
+			return true
+		}
 		images := map[string]bool{}
 		for k, st := range sc.Steps {
-			images[st.Image] = true
+			if st.Op != "cancel" {
+				images[st.Image] = true
+			}
 			switch st.Op {
+			case "cancel":
+				doCancel(k, st)
 			case "req":
 				doReq(k, st)
 			case "done":
@@ -470,9 +648,12 @@ func init() {
 			default:
 				return nil, fmt.Errorf("unknown op %q", st.Op)
 			}
+			if checkStuck(k) {
+				break
+			}
 		}
 		// drain: complete every pull that is still running, oldest first, images in order
-		for k := len(sc.Steps); k < len(sc.Steps)+1000; k++ {
+		for k := len(sc.Steps); k < len(sc.Steps)+1000 && !h.stuck && !h.timedOut; k++ {
 			h.mu.Lock()
 			var imgs []string
 			for img, l := range h.running {
@@ -488,6 +669,7 @@ func init() {
 			st := rmStep{Op: "done", Image: imgs[0], Result: "ok"}
 			obs.Drain = append(obs.Drain, st)
 			doDone(k, st)
+			checkStuck(k)
 		}
 		// who never returned
 		names := make([]string, 0, len(images))
